@@ -61,6 +61,55 @@ class Gen:
         return f"<{body} for {self.var} in [{self.lo}, {self.hi}){st}>"
 
 
+def g_subst(g: G, mapping: Dict[str, Rat]) -> G:
+    from .guards import canon_sign, g_or
+    if g.kind in ("true", "false"):
+        return g
+    if g.kind == "sign":
+        return canon_sign(g.a.subst(mapping), g.b)
+    if g.kind == "atom":
+        txt = repr(g.a)
+        if any(n in txt for n in mapping):
+            raise NoSummary("an opaque condition depends on a loop variable that has to be shifted")
+        return g
+    if g.kind == "not":
+        return g_not(g_subst(g.a, mapping))
+    if g.kind == "and":
+        return g_and(*[g_subst(x, mapping) for x in g.a])
+    return g_or(*[g_subst(x, mapping) for x in g.a])
+
+
+def subst_value(v, mapping: Dict[str, Rat]):
+    from .gvn import Vec, PW, mk_pw
+    if isinstance(v, Rat):
+        return v.subst(mapping)
+    if isinstance(v, Vec):
+        return Vec([subst_value(i, mapping) for i in v.items], v.kind)
+    if isinstance(v, PW):
+        return mk_pw([(g_subst(g, mapping), subst_value(c, mapping)) for g, c in v.cases])
+    if isinstance(v, G):
+        return g_subst(v, mapping)
+    if isinstance(v, Gen):
+        parts = [(g_subst(g, mapping), subst_value(x, mapping), sp) for g, x, sp in v.parts]
+        if not v.ranged:
+            return Gen(v.depth, None, None, None, parts, ranged=False)
+        return mk_gen(v.depth, v.lo.subst(mapping), v.hi.subst(mapping), v.step, parts)
+    if mentions(v, list(mapping)):
+        raise NoSummary("a value that cannot be re-indexed depends on a loop variable")
+    return v
+
+
+def mk_gen(depth: int, lo: Rat, hi: Rat, step: Rat, parts) -> "Gen":
+    """Ranged block in normal form: unit-step ranges start at 0 (`for i in range(1, K): f(i-1, i)` and
+    `for j in range(0, K-1): f(j, j+1)` are the same block)."""
+    if step.is_const() == 1 and not lo.is_zero():
+        v = var_symbol(depth)
+        m = {str(v): v.add(lo)}
+        parts = [(g_subst(g, m), subst_value(x, m), sp) for g, x, sp in parts]
+        lo, hi = Rat.const(0), hi.sub(lo)
+    return Gen(depth, lo, hi, step, parts, ranged=True)
+
+
 def var_symbol(depth: int) -> Rat:
     r = sym(f"@i{depth}")
     anf.declare_integer(r)
@@ -104,7 +153,7 @@ def _norm_items(items, g0: G) -> list:
         if isinstance(it, Gen) and it.ranged:
             parts = _norm_parts(it.parts, g0)
             if parts:
-                out.append(Gen(it.depth, it.lo, it.hi, it.step, parts, ranged=True))
+                out.append(mk_gen(it.depth, it.lo, it.hi, it.step, parts))
         elif isinstance(it, Gen):
             for g, v, sp in it.parts:
                 gg = g_and(g0, g)
@@ -294,7 +343,8 @@ def _summarise(frame, target, iter_node, body, env, guard: G, node) -> bool:
                                 newparts[a].extend(r[a])
                     for a in accs:
                         if newparts[a]:
-                            out[a].append(Gen(it.depth, it.lo, it.hi, it.step, newparts[a], ranged=it.ranged))
+                            out[a].append(mk_gen(it.depth, it.lo, it.hi, it.step, newparts[a]) if it.ranged
+                                          else Gen(it.depth, None, None, None, newparts[a], ranged=False))
                 else:
                     r = one(it, TRUE, d)
                     for a in accs:
@@ -348,6 +398,7 @@ def _summarise(frame, target, iter_node, body, env, guard: G, node) -> bool:
         per, end, names = attempt({})
         closed: Dict[str, Rat] = {}
         incs: Dict[str, Rat] = {}
+        delayed: Dict[str, Rat] = {}
         varname = str(var)
         recnames = [str(r_) for r_ in rec.values()]
         for n in carried:
@@ -355,9 +406,22 @@ def _summarise(frame, target, iter_node, body, env, guard: G, node) -> bool:
             if isinstance(new, Rat) and new.equals(rec[n]):
                 continue
             if not mentions(new, [str(rec[n])]):
-                # written before read: a temporary (its value after the loop is the last one written, or the old one)
                 if mentions(new, recnames):
                     raise NoSummary(f"{n} depends on another carried variable")
+                read_first = any(mentions(v_, [str(rec[n])]) or mentions(g_, [str(rec[n])]) for a_ in accs for g_, v_, _s in per[a_]) \
+                    or any(mentions(end.get(m_), [str(rec[n])]) for m_ in carried if m_ != n)
+                if read_first:
+                    # a delay line: the value read in iteration v is the one written in iteration v - step,
+                    # x(v) = F(v - step), provided the value before the loop is F(lo - step)
+                    if not isinstance(new, Rat) or not isinstance(env[n], Rat):
+                        raise NoSummary(f"{n} is carried from the previous iteration and is not a plain value")
+                    prev = new.subst({varname: var.sub(step)})
+                    if not env[n].equals(new.subst({varname: lo.sub(step)})):
+                        raise NoSummary(f"{n}: the value before the loop is not the one the previous iteration would have left")
+                    closed[n] = prev
+                    delayed[n] = new
+                    continue
+                # written before read: a temporary (its value after the loop is the last one written, or the old one)
                 after[n] = ev.fresh_sym(n + "@after")
                 continue
             if not isinstance(new, Rat) or not isinstance(env[n], Rat):
@@ -373,13 +437,18 @@ def _summarise(frame, target, iter_node, body, env, guard: G, node) -> bool:
                 new = end.get(n)
                 if not (isinstance(new, Rat) and new.sub(closed[n]).equals(c)):
                     raise NoSummary(f"{n}: recurrence not confirmed with the closed form")
+            for n, F in delayed.items():
+                new = end.get(n)
+                if not (isinstance(new, Rat) and new.equals(F)):
+                    raise NoSummary(f"{n}: delay line not confirmed")
+                after[n] = ev.fresh_sym(n + "@after")
             for n in carried:
                 if n not in closed and mentions(end.get(n), recnames):
                     raise NoSummary(f"{n} depends on a carried variable")
         # nothing but accumulators / recurrences / temporaries may use the poison
         for a in accs:
             if per[a]:
-                results[a] = [Gen(depth, lo, hi, step, per[a], ranged=True)]
+                results[a] = [mk_gen(depth, lo, hi, step, per[a])]
         for n, c in incs.items():
             after[n] = env[n].add(hi.sub(lo).div(step).mul(c))
             ev.summary_assumptions.add("summarised loops run a non-negative number of iterations (hi >= lo)")
